@@ -263,12 +263,57 @@ def check_partitions(ctx, run):
                        "sizes": [len(sched), len(unsched), len(ongoing), len(completed), len(uncompleted)]})
 
 
+def evaluate_a_rule(ctx, run, rng):
+    """Built-in rules and score functions are clients of the cached lists too: evaluating one
+    between two queries must not change any answer."""
+    from job_shop_lib.dispatching.rules import (
+        dispatching_rule_factory, score_based_rule, score_based_rule_with_tie_breaker,
+        shortest_processing_time_score, most_operations_remaining_score, first_come_first_served_score,
+        observer_based_most_work_remaining_rule)
+    if run.done() or not run.d.available_operations():
+        return
+    scores = [shortest_processing_time_score, most_operations_remaining_score,
+              first_come_first_served_score]
+    which = rng.randrange(8)
+    if which < 4:
+        rule = dispatching_rule_factory(["shortest_processing_time", "first_come_first_served",
+                                         "most_work_remaining", "most_operations_remaining"][which])
+    elif which == 4:
+        rule = score_based_rule(rng.choice(scores))
+    elif which == 5:
+        rule = observer_based_most_work_remaining_rule
+        if run.d.subscribers and not getattr(run, "observers_attached", False):
+            return      # would subscribe a new observer next to the mirror: kept for runs with observers
+        if not getattr(run, "observers_attached", False):
+            return
+    else:
+        rule = score_based_rule_with_tie_breaker(rng.sample(scores, rng.randint(1, 3)))
+    rule(run.d)
+    ctx.count("rule_evaluations_between_queries")
+
+
 def query_burst(ctx, run, mirror, rng, lo=5, hi=40):
     trace = []
     for _ in range(rng.randint(lo, hi)):
+        if rng.random() < 0.06:
+            evaluate_a_rule(ctx, run, rng)
+            trace.append("<rule evaluated>")
         q = rng.choice(ZERO_ARG + ZERO_ARG + PARAM)
         check_query(ctx, run, mirror, q, rng, trace)
     return trace
+
+
+def attach_observers(ctx, run):
+    from job_shop_lib.dispatching.feature_observers import (
+        IsReadyObserver, IsScheduledObserver, IsCompletedObserver, DurationObserver,
+        RemainingOperationsObserver, EarliestStartTimeObserver, PositionInJobObserver)
+    from job_shop_lib.graphs import build_agent_task_graph
+    from job_shop_lib.graphs.graph_updaters import ResidualGraphUpdater
+    for cls in (IsReadyObserver, IsScheduledObserver, RemainingOperationsObserver, IsCompletedObserver,
+                DurationObserver, EarliestStartTimeObserver, PositionInJobObserver):
+        cls(run.d)
+    ResidualGraphUpdater(run.d, build_agent_task_graph(run.instance))
+    run.observers_attached = True
 
 
 def run_case(ctx, case):
@@ -281,14 +326,12 @@ def run_case(ctx, case):
         mirror = UnscheduledOperationsObserver(run.d) if mirror_after == 0 else None
         if case["seed"] % 5 == 0 and mirror is not None:
             # built-in observers call the cached queries as well; their use must not disturb answers
-            from job_shop_lib.dispatching.feature_observers import (IsReadyObserver, IsScheduledObserver,
-                                                                   IsCompletedObserver, DurationObserver)
-            from job_shop_lib.graphs import build_agent_task_graph
-            from job_shop_lib.graphs.graph_updaters import ResidualGraphUpdater
-            for cls in (IsReadyObserver, IsScheduledObserver, IsCompletedObserver, DurationObserver):
-                cls(run.d)
-            ResidualGraphUpdater(run.d, build_agent_task_graph(run.instance))
+            attach_observers(ctx, run)
             ctx.count("histories_with_observers_attached")
+        attach_at = None
+        if case["seed"] % 5 == 2:
+            # ... or they arrive in the middle of the history
+            attach_at = rng.randint(1, max(1, run.r.num_ops - 1))
         nontrivial = False
         traces = []
         steps = 0
@@ -325,8 +368,12 @@ def run_case(ctx, case):
             o, m = run.choose(rng, pol if pol != "mixed" else rng.choice(gen.POLICIES))
             run.dispatch(o, m)
             steps += 1
+            if attach_at is not None and len(run.r.history) >= attach_at:
+                attach_at = None
+                attach_observers(ctx, run)
+                ctx.count("observers_attached_mid_history")
             if mirror is None and len(run.r.history) >= mirror_after:
-                mirror = UnscheduledOperationsObserver(run.d)
+                mirror = run.d.create_or_get_observer(UnscheduledOperationsObserver)
                 ctx.count("mirror_created_mid_history")
                 check_query(ctx, run, mirror, "mirror", rng, ["<created mid-history>"])
             # immediately after dispatch: one targeted query (stale cache)
